@@ -1,10 +1,10 @@
 (** C09 - Fit heuristics keep the any-fit invariant (and the bin-count bound that follows from it).
     The sharp bounds floor(1.7 OPT), 11/9 OPT + 6/9, 11/9 OPT + 4 are NOT proved (DESIGN section 8): they are
     tested against the verified min_bins oracle; what is proved is the invariant, length <= 2 OPT - 1, 3/2 OPT for the
-    decreasing variants and, for first-fit and best-fit, the weight-function bound 10 * bins <= 17 * OPT + 3 (the property's floor(1.7 OPT) of
-    Dosa and Sgall differs from it by at most one bin), and floor(1.7 OPT) itself for every OPT not congruent to 1, 4, 7 mod 10 (first-fit: also OPT <= 6, 13).
+    decreasing variants and, for first-fit and best-fit, the weight-function bound 10 * bins <= 17 * OPT + 2 (the property's floor(1.7 OPT) of
+    Dosa and Sgall differs from it by at most one bin), and floor(1.7 OPT) itself for every OPT not congruent to 4, 7 mod 10 (first-fit: also OPT <= 6).
     Statements only; proofs in Proofs/PackingProofs.v and Proofs/OracleSpec.v. *)
-From Prtpy Require Import Base.Prelude Model.Binner Model.Packing Spec.Partition Oracle.Reach Proofs.PackingProofs Proofs.OracleSpec Proofs.FFDRatioProofs Proofs.BFDRatioProofs Proofs.FF17Proofs Proofs.BF17Proofs Proofs.FF17SharpProofs Proofs.FF17FloorProofs Proofs.FFD119Proofs Proofs.BFD54Proofs.
+From Prtpy Require Import Base.Prelude Model.Binner Model.Packing Spec.Partition Oracle.Reach Proofs.PackingProofs Proofs.OracleSpec Proofs.FFDRatioProofs Proofs.BFDRatioProofs Proofs.FF17Proofs Proofs.BF17Proofs Proofs.FF17SharpProofs Proofs.FF17FloorProofs Proofs.FF17PureProofs Proofs.FFD119Proofs Proofs.BFD54Proofs.
 
 (** first-fit: for any two bins, the earlier sum plus the first item of the later bin exceeds the bin size *)
 Theorem C09_ff_anyfit : forall (A : Type) (valueof : A -> Z) (C : Z) (items : list A) (b : bins A),
@@ -82,19 +82,19 @@ Theorem C09_bfd_ratio_32 : forall (A : Type) (valueof : A -> Z) (C : Z) (items :
 Proof. exact @bfd_ratio_32_opt. Qed.
 Print Assumptions C09_bfd_ratio_32.
 
-(** first-fit: at most 1.7 OPT + 0.3 bins (refined weight-function proof; PARTIAL with respect to floor(1.7 OPT): off by at most
+(** first-fit: at most 1.7 OPT + 0.2 bins (refined weight-function proof; PARTIAL with respect to floor(1.7 OPT): off by at most
     one bin, and exact for the OPT values of C09_ff_ratio_17_floor_partial below) *)
 Theorem C09_ff_ratio_17_partial : forall (A : Type) (valueof : A -> Z) (C : Z) (items : list A) (b : bins A) (n : nat),
   items <> [] -> Forall (fun x : A => 0 <= valueof x) items ->
-  first_fit valueof true C items = Ok b -> Packable C (map valueof items) n -> (10 * length b <= 17 * n + 3)%nat.
-Proof. exact @ff_ratio_17_3_uncond_partial. Qed.
+  first_fit valueof true C items = Ok b -> Packable C (map valueof items) n -> (10 * length b <= 17 * n + 2)%nat.
+Proof. exact @ff_ratio_17_2_uncond_partial. Qed.
 Print Assumptions C09_ff_ratio_17_partial.
 
-(** best-fit: at most 1.7 OPT + 0.3 bins (same weights; PARTIAL with respect to floor(1.7 OPT): off by at most one bin) *)
+(** best-fit: at most 1.7 OPT + 0.2 bins (same weights; PARTIAL with respect to floor(1.7 OPT): off by at most one bin) *)
 Theorem C09_bf_ratio_17_partial : forall (A : Type) (valueof : A -> Z) (C : Z) (items : list A) (b : bins A) (n : nat),
   items <> [] -> Forall (fun x : A => 0 <= valueof x) items ->
-  best_fit valueof true C items = Ok b -> Packable C (map valueof items) n -> (10 * length b <= 17 * n + 3)%nat.
-Proof. exact @bf_ratio_17_3_uncond_partial. Qed.
+  best_fit valueof true C items = Ok b -> Packable C (map valueof items) n -> (10 * length b <= 17 * n + 2)%nat.
+Proof. exact @bf_ratio_17_2_uncond_partial. Qed.
 Print Assumptions C09_bf_ratio_17_partial.
 
 (** first-fit-decreasing: at most 5/4 OPT + 1 bins for every input (PARTIAL with respect to 11/9 OPT + 6/9) *)
@@ -127,13 +127,13 @@ Theorem C09_bfd_ratio_11_9_partial : forall (A : Type) (valueof : A -> Z) (C : Z
 Proof. exact @bfd_ratio_11_9_partial. Qed.
 Print Assumptions C09_bfd_ratio_11_9_partial.
 
-(** first-fit: the property's floor(1.7 OPT) itself, for OPT = 1 and every OPT not congruent to 1, 4 or 7 mod 10 (PARTIAL: those three residues are open) *)
+(** first-fit: the property's floor(1.7 OPT) itself, for every OPT not congruent to 4 or 7 mod 10 (PARTIAL: those two residues are open) *)
 Theorem C09_ff_ratio_17_floor_partial : forall (A : Type) (valueof : A -> Z) (C : Z) (items : list A) (b : bins A) (n : nat),
   items <> [] -> Forall (fun x : A => 0 <= valueof x) items ->
   first_fit valueof true C items = Ok b -> MinBins C (map valueof items) n ->
-  n = 1%nat \/ (exists k r : nat, n = (10 * k + r)%nat /\ (r < 10)%nat /\ r <> 1%nat /\ r <> 4%nat /\ r <> 7%nat) ->
+  (exists k r : nat, n = (10 * k + r)%nat /\ (r < 10)%nat /\ r <> 4%nat /\ r <> 7%nat) ->
   (10 * length b <= 17 * n)%nat.
-Proof. exact @ff_ratio_17_floor_rung3_partial. Qed.
+Proof. exact @ff_ratio_17_floor_rung2_partial. Qed.
 Print Assumptions C09_ff_ratio_17_floor_partial.
 
 (** first-fit: floor(1.7 OPT) for every OPT <= 6 (and 9, 10, 13) *)
@@ -145,11 +145,11 @@ Theorem C09_ff_ratio_17_floor_small_partial : forall (A : Type) (valueof : A -> 
 Proof. exact @ff_ratio_17_floor_small_partial. Qed.
 Print Assumptions C09_ff_ratio_17_floor_small_partial.
 
-(** best-fit: floor(1.7 OPT) for OPT = 1 and every OPT not congruent to 1, 4 or 7 mod 10 (PARTIAL) *)
+(** best-fit: floor(1.7 OPT) for every OPT not congruent to 4 or 7 mod 10 (PARTIAL) *)
 Theorem C09_bf_ratio_17_floor_partial : forall (A : Type) (valueof : A -> Z) (C : Z) (items : list A) (b : bins A) (n : nat),
   items <> [] -> Forall (fun x : A => 0 <= valueof x) items ->
   best_fit valueof true C items = Ok b -> MinBins C (map valueof items) n ->
-  n = 1%nat \/ (exists k r : nat, n = (10 * k + r)%nat /\ (r < 10)%nat /\ r <> 1%nat /\ r <> 4%nat /\ r <> 7%nat) ->
+  (exists k r : nat, n = (10 * k + r)%nat /\ (r < 10)%nat /\ r <> 4%nat /\ r <> 7%nat) ->
   (10 * length b <= 17 * n)%nat.
-Proof. exact @bf_ratio_17_floor_rung3_partial. Qed.
+Proof. exact @bf_ratio_17_floor_rung2_partial. Qed.
 Print Assumptions C09_bf_ratio_17_floor_partial.
